@@ -163,6 +163,23 @@ func c17Rules(tier string) []Rule {
 			return rs
 		}},
 
+		// exclusive-device records: created on commit, consulted pessimistically, dropped only with the last instance type
+		DOM{ID: "C17.DOM9", Fn: "(*" + dra + "AllocationTracker).ReleaseInstanceTypes", Sink: `^call delete\(\$0\.InflightClusterAllocations, `, Gates: gates(
+			G(`-^len\(\$0\.InflightClusterAllocations\[.*\]#0\.InstanceTypes\)>=1$`),
+			G(`instr:^call \(apim/util/sets\.Set\[scheduling/dynamicresources\.InstanceTypeID\]\)\.Delete\(\$0\.InflightClusterAllocations\[.*\]#0\.InstanceTypes, `),
+		), Note: "a device's in-flight record is dropped only when no instance type of the NodeClaim references it any more"},
+		MPT{ID: "C17.MPT5", Fn: "(*" + dra + "AllocationTracker).IsAllocated", Ret: core.RetFalse, Gates: gates(
+			G(`+^\$1\.Template$`, `-^\(apim/util/sets\.Set\[scheduling/dynamicresources\.DeviceID\]\)\.Has\(\$0\.PreallocatedDevices, \$1\)$`),
+			G(`+^\$1\.Template$`, `-^\$0\.InflightClusterAllocations\[\$1\]#1$`, `+^\$0\.InflightClusterAllocations\[\$1\]#0\.NodeClaimID == iface:\(scheduling/dynamicresources\.NodeClaim\)\.ID\(\$2\)$`),
+			G(`+^\$1\.Template$`, `-^\$0\.InflightClusterAllocations\[\$1\]#1$`, `-^\(apim/util/sets\.Set\[scheduling/dynamicresources\.InstanceTypeID\]\)\.Has\(\$0\.InflightClusterAllocations\[\$1\]#0\.InstanceTypes, \$3\)$`),
+			G(`-^\$1\.Template$`, `-^\$0\.InflightTemplateAllocations\[.*\]#1$`, `-^\$0\.InflightTemplateAllocations\[.*\]#0\[\$3\]#1$`, `-^\(apim/util/sets\.Set\[scheduling/dynamicresources\.DeviceID\]\)\.Has\(\$0\.InflightTemplateAllocations\[.*\]#0\[\$3\]#0, \$1\)$`),
+		), Note: "free ⇒ not preallocated, and no record, or a record of this NodeClaim for other instance types only"},
+		POST{ID: "C17.POST10", Fn: "(*" + dra + "AllocationTracker).Commit", From: `^call \(\*scheduling/dynamicresources\.AllocationTracker\)\.insertAllocation\(\$0, \$0\.InflightClusterAllocationsByNodeClaim, `,
+			Must: []string{`^mapupdate \$0\.InflightClusterAllocations\[.*\] = &local<scheduling/dynamicresources\.InflightAllocationMetadata>$`,
+				`^call \(apim/util/sets\.Set\[scheduling/dynamicresources\.InstanceTypeID\]\)\.Insert\(\$0\.InflightClusterAllocations\[.*\]#0\.InstanceTypes, `},
+			Note: "every committed exclusive device gets (or extends) its in-flight record"},
+		IMPL{ID: "C17.IMPL3", Fn: "(*" + dra + "AllocationTracker).Commit", Lit: `-^\$0\.InflightClusterAllocations\[.*\]#0\.NodeClaimID == \$1\.nodeClaimID$`, Not: core.RetAny, Note: "committing a device recorded for another NodeClaim is a fail-stop"},
+
 		// ---- (7) DFS: check before record, undo on failure
 		DOM{ID: "C17.DOM8", Fn: try, Sink: `^call \(apim/util/sets\.Set\[scheduling/dynamicresources\.DeviceID\]\)\.Insert\(\$0\.allocatedDevices, `, Gates: gates(
 			G(`+^\$7\.Device\.AllowMultipleAllocations$`, `-^\(\*scheduling/dynamicresources\.AllocationTracker\)\.IsAllocated\(\$0\.Allocator\.allocationTracker, \$7\.ID, \$0\.nodeClaim, \$0\.itID\)$`),
